@@ -1,5 +1,6 @@
 import SelenModel.Lemmas.FloatLin
 import SelenModel.Lemmas.FloatFrame
+import SelenModel.Lemmas.FloatEngine
 /-
 C06 — "Every assignment returned for a model containing float variables keeps each variable inside
 its declared bounds and satisfies every posted constraint up to a tolerance that scales with the
@@ -24,8 +25,13 @@ the structural ones for EVERY `Num` instance, i.e. also for the bit-exact `Float
   whose variables are all integer variables is not checked at all
   (`C06_int_only_row_unchecked_counterexample`: known finding `int-var-in-float-linear`).
 
-NOT covered here: IEEE rounding, the search, the other solve paths; the API-level stream `#flapi`
-of suite `float` checks C06 on real solutions.
+* `C06_solve_within_tolerance` (end of the file): the same for the assignment RETURNED BY THE SEARCH
+  (`Model/FloatEngine.lean`: propagation loop, float bisection, first leaf): declared bounds kept,
+  integer variables take integer values of their declared domains, every `FloatLinLe` row holds
+  within the tolerance above with residual widths `< 1.5·step`.
+
+NOT covered here: IEEE rounding, the other solve paths (root LP, optimisation); the engine-level
+cases (`fl.solve`) and the API-level stream `#flapi` of suite `float` check C06 on real solutions.
 -/
 namespace Selen
 namespace C06
@@ -249,6 +255,147 @@ theorem C06_int_only_row_unchecked_counterexample :
 
 /-- the equality propagator does constrain integer variables (`(VarI, ValF)` arms) -/
 example : (FPK.prune (.linEq [1] [0] 0) ({ st := fun _ => .int [5] } : FCtx Rat)).isNone = true := by
+  decide +kernel
+
+/-! ### the search (end to end): what a returned assignment guarantees
+
+Model: `Model/FloatEngine.lean` (`fsolve` = root propagation + first leaf of the depth-first search
+with the float bisection).  The leaf is a fixpoint of every posted propagator
+(`fpropagate_fixpoint`, all instances of `Num`), so `C06_float_checking_tol` applies to it. -/
+
+theorem nonInverted_of_good {κ : Nat → Bool} {st : FStore Rat} (hg : GoodK κ st) : NonInverted st := by
+  intro x
+  have := hg x
+  simp only [width, FPK.boundsF, FStore.vmin, FStore.vmax]
+  cases hx : st x with
+  | flt iv =>
+    rw [hx] at this
+    have := this.2.1
+    simp only [FVal.toF]; grind
+  | int d =>
+    simp only [FVal.toF, Num.ofInt]
+    cases d with
+    | nil => simp only [ilmin, ilmax]; decide +kernel
+    | cons z zs =>
+      have h1 := ilmin_le (z :: zs) z (by simp)
+      have h2 := ilmax_ge (z :: zs) z (by simp)
+      have := RatL.intCast_le (Int.le_trans h1 h2)
+      grind
+
+theorem assigned_of_none {n : Nat} {st : FStore Rat} (h : ffirstUnassigned n st = none) (x : Nat) (hx : x < n) :
+    (st x).isAssigned = true := by
+  simp only [ffirstUnassigned, List.find?_eq_none] at h
+  have := h x (List.mem_range.2 hx)
+  simpa using this
+
+/-- a float interval that counts as assigned (`step_count() <= 1`) is narrower than 1.5 steps -/
+theorem fixed_width (iv : FI Rat) (hv : iv.Valid) (h : iv.isFixed = true) : iv.max - iv.min < 3 / 2 * iv.step := by
+  obtain ⟨hmm, hs⟩ := hv
+  simp only [FI.isFixed, FI.stepCount, FI.isEmpty] at h
+  num_simp at h
+  have hne : ¬ iv.max < iv.min := Rat.not_lt.mpr hmm
+  simp only [hne, decide_false, Bool.false_eq_true, if_false, Num.toUsize, trunc_intCast] at h
+  -- q = (max - min)/step ≥ 0, round q = floor (q + 1/2) ≤ 1
+  have hq0 : 0 ≤ (iv.max - iv.min) / iv.step := by
+    rw [RatL.le_div_iff hs]; grind
+  simp only [RatImpl.roundHA, hq0, if_true] at h
+  have hfl : ((iv.max - iv.min) / iv.step + 1 / 2).floor ≤ 1 := by
+    simp only [RatImpl.clampInt] at h
+    have h := of_decide_eq_true h
+    split at h
+    · omega
+    · split at h <;> omega
+  have hlt : (iv.max - iv.min) / iv.step + 1 / 2 < 2 := by
+    have := Rat.lt_floor_add_one ((iv.max - iv.min) / iv.step + 1 / 2)
+    have h2 : (((((iv.max - iv.min) / iv.step + 1 / 2).floor + 1 : Int)) : Rat) ≤ ((2 : Int) : Rat) :=
+      RatL.intCast_le (by omega)
+    have h3 : ((2 : Int) : Rat) = 2 := by simp
+    grind
+  have hd : (iv.max - iv.min) / iv.step < 3 / 2 := by grind
+  have := (Rat.div_lt_iff hs).mp hd
+  grind
+
+/-- the value reported for a variable is the minimum of its final domain -/
+theorem minPt_eq_value (st : FStore Rat) (x : Nat) : minPt st x = (st x).value.toF := by
+  simp only [minPt, FPK.boundsF, FStore.vmin, FVar.value]
+  cases st x <;> rfl
+
+/-- **C06 (search, end to end).**  Let `fsolve` return the leaf `leaf` for a model whose declared
+store `st0` is well formed (`GoodK`: float intervals with `min ≤ max`, positive steps) and whose
+propagators only shrink domains (`Shrinks`; proved for `FloatLinLe`, `FloatLinEq` and the branching
+constraints: `shrinks_linLe`, `shrinks_linEq`).  Then, for every pop policy and all fuels:
+
+* a float variable is reported (`minPt leaf`, the minimum of its final interval) inside its DECLARED
+  bounds, its step is unchanged, and if it is one of the `n` decision variables its final interval
+  is narrower than 1.5 steps;
+* an integer variable keeps a sub-list of its declared values, and a decision variable has exactly
+  one value left, an integer of its declared domain;
+* every posted `FloatLinLe` row `Σ cⱼ·xⱼ ≤ C` holds at the reported point within
+  `|cᵢ|·max(3·stepᵢ, 1e-5·|boundᵢ|) + Σⱼ |cⱼ|·widthⱼ` for EVERY float variable `i` of the row with
+  `|cᵢ| ≥ 1e-12` (the tolerance of `C06_float_checking_tol`, widths as above). -/
+theorem C06_solve_within_tolerance (n : Nat) (κ : Nat → Bool) (pol : Policy) (pf fuel : Nat)
+    (ps : List (FPK Rat)) (st0 : FStore Rat)
+    (hsh : ∀ k ∈ ps, Shrinks κ k) (hg : GoodK κ st0) (leaf : FStore Rat) (pc nc : Nat)
+    (h : fsolve n pol pf fuel ps st0 = .sol leaf pc nc) :
+    (∀ x iv0, st0 x = .flt iv0 → ∃ iv, leaf x = .flt iv ∧ iv.step = iv0.step ∧
+        iv0.min ≤ minPt leaf x ∧ minPt leaf x ≤ iv0.max ∧ minPt leaf x = iv.min ∧
+        (x < n → iv.max - iv.min < 3 / 2 * iv.step)) ∧
+    (∀ x d0, st0 x = .int d0 → ∃ d, leaf x = .int d ∧ d.Sublist d0 ∧
+        (x < n → ∃ z : Int, d = [z] ∧ z ∈ d0 ∧ minPt leaf x = (z : Rat))) ∧
+    (∀ cs xs cst, FPK.linLe cs xs cst ∈ ps → ∀ (i : Nat) (ci : Rat) (xi : Nat) (iv : FI Rat),
+        (cs.zip xs)[i]? = some (ci, xi) → leaf xi = .flt iv → 1 / 1000000000000 ≤ rabs ci →
+        dot (minPt leaf) cs xs ≤ cst + tolTerm ci iv + rabs ci * width leaf xi + widthOther leaf i 0 cs xs) := by
+  have lf := fsolve_leaf n κ pol pf fuel ps st0 hsh hg leaf pc nc h
+  refine ⟨?_, ?_, ?_⟩
+  · intro x iv0 hx
+    have w := lf.within x
+    have g := lf.good x
+    rw [hx] at w
+    cases hl : leaf x with
+    | int d => rw [hl] at w; exact absurd w (by simp [VWithin])
+    | flt iv =>
+      rw [hl] at w g
+      obtain ⟨hstep, hlo, hhi⟩ := w
+      have hv : iv.Valid := g.2
+      have hm : minPt leaf x = iv.min := by simp [minPt, FPK.boundsF, FStore.vmin, hl, FVal.toF]
+      refine ⟨iv, rfl, hstep, by rw [hm]; exact hlo, by rw [hm]; exact Rat.le_trans hv.1 hhi, hm, ?_⟩
+      intro hxn
+      have ha := assigned_of_none lf.assigned x hxn
+      rw [hl] at ha
+      exact fixed_width iv hv ha
+  · intro x d0 hx
+    have w := lf.within x
+    rw [hx] at w
+    cases hl : leaf x with
+    | flt iv => rw [hl] at w; exact absurd w (by simp [VWithin])
+    | int d =>
+      rw [hl] at w
+      refine ⟨d, rfl, w, ?_⟩
+      intro hxn
+      have ha := assigned_of_none lf.assigned x hxn
+      rw [hl] at ha
+      simp only [FVar.isAssigned, beq_iff_eq] at ha
+      match d, ha, w with
+      | [z], _, w =>
+        refine ⟨z, rfl, w.subset (by simp), ?_⟩
+        simp [minPt, FPK.boundsF, FStore.vmin, hl, FVal.toF, ilmin, Num.ofInt]
+  · intro cs xs cst hk i ci xi iv hi hx hbig
+    obtain ⟨c', hc', hev⟩ := lf.stable _ hk
+    have g := lf.good xi
+    rw [hx] at g
+    exact C06_float_checking_tol cs xs cst { st := leaf, ev := [] } c' (nonInverted_of_good lf.good) hc'
+      (by rw [hev]; simp) i ci xi iv hi hx g.2.2 hbig
+
+/-- the value reported for variable `x` by a run (`none` if the run did not end in a solution) -/
+def reported (r : FRes Rat) (x : Nat) : Option Rat :=
+  match r with
+  | .sol leaf _ _ => some (minPt leaf x)
+  | _ => none
+
+/-- `C06_solve_within_tolerance` speaks about actual runs: `x ∈ [0, 2]`, step `1/4`, row `x ≤ 3/4`
+(hypotheses: `shrinks_linLe`, a valid interval); the search returns `x = 0` after bisecting. -/
+example : reported (fsolve 1 Policy.fifo 100 100 [FPK.linLe ([1] : List Rat) [0] (3/4)]
+      (fun _ => .flt { min := 0, max := 2, step := 1/4 } : FStore Rat)) 0 = some 0 := by
   decide +kernel
 
 end C06
